@@ -1,7 +1,7 @@
 package jschema
 
 import (
-	stdBytes "bytes"
+	stdJson "encoding/json"
 
 	"github.com/jsightapi/jsight-schema-core/bytes"
 	"github.com/jsightapi/jsight-schema-core/errs"
@@ -73,9 +73,8 @@ func (b *exampleBuilder) buildExampleForObjectNode(node *ischema.ObjectNode) ([]
 			return nil, err
 		}
 
-		buf.WriteByte('"')
 		buf.Write(k)
-		buf.WriteString(`":`)
+		buf.WriteByte(':')
 		buf.Write(ex)
 		if i+1 != length {
 			buf.WriteByte(',')
@@ -85,9 +84,10 @@ func (b *exampleBuilder) buildExampleForObjectNode(node *ischema.ObjectNode) ([]
 	return buf.Bytes(), nil
 }
 
+// buildObjectKey returns the key as a JSON string literal.
 func (b *exampleBuilder) buildObjectKey(k ischema.ObjectNodeKey) ([]byte, error) {
 	if !k.IsShortcut {
-		return []byte(k.Key), nil
+		return stdJson.Marshal(k.Key)
 	}
 
 	typ, ok := b.types[k.Key]
@@ -99,7 +99,7 @@ func (b *exampleBuilder) buildObjectKey(k ischema.ObjectNodeKey) ([]byte, error)
 	if err != nil {
 		return nil, err
 	}
-	return stdBytes.Trim(ex, `"`), nil
+	return ex, nil
 }
 
 func (b *exampleBuilder) buildExampleForArrayNode(node *ischema.ArrayNode) ([]byte, error) {
